@@ -18,8 +18,8 @@ ANCHORS = ["runlengtharray.py::RunLengthArray._get_position", "runlengtharray.py
            "runlengtharray.py::RunLengthArray.__getitem__", "mixin.py::NPSIndexable.__getitem__"]
 KINDS = ["int", "list", "array", "boolarray", "boollist", "rlmask", "cmpmask", "slice", "windows"]
 FLOOR_TAGS = ["k:" + k for k in KINDS] + ["step:+1", "step:+k", "step:-1", "step:-k", "bounds:oob", "bounds:in", "result:empty", "mask:allfalse", "mask:alltrue", "int:negative",
-                                          "kind:b", "kind:i", "kind:u", "kind:f"]
-FLOOR_MONITORS = ["c15:compare", "c15:canonical", "inv:rla"]
+                                          "kind:b", "kind:i", "kind:u", "kind:f", "index:readonly", "step:huge", "windows:narrow-dtype", "windows:len-exceeds-dtype"]
+FLOOR_MONITORS = ["c15:compare", "c15:canonical", "inv:rla", "c15:arguments-unchanged"]
 N_RANDOM = {"quick": 24000, "thorough": 300000}
 
 
@@ -43,6 +43,15 @@ def run(case):
     tags = ["k:" + kind, "kind:" + dt.kind]
     r = RLA.from_array(v.copy())
     joined = None
+    args = []          # the caller's index arrays: (array, copy taken before the call)
+
+    def mine(x):
+        """register a caller-owned index array (optionally read-only: a read must not need to write into it)"""
+        if case.get("readonly"):
+            x.setflags(write=False)
+            tags.append("index:readonly")
+        args.append((x, x.copy()))
+        return x
     if kind == "int":
         if idx < 0:
             tags.append("int:negative")
@@ -52,7 +61,7 @@ def run(case):
         dec = lambda x: np.asarray(x)
         want = "scalar"
     elif kind in ("list", "array"):
-        q = list(idx) if kind == "list" else np.array(idx, dtype=np.int64)
+        q = list(idx) if kind == "list" else mine(np.array(idx, dtype=case.get("idtype", "int64")))
         exp = v[np.array(idx, dtype=np.int64)]
         a = attempt(lambda: r[q])
         dec = np.asarray
@@ -60,7 +69,7 @@ def run(case):
     elif kind in ("boolarray", "boollist"):
         m = np.array(idx, dtype=bool)
         exp = v[m]
-        mm = m if kind == "boolarray" else [bool(b) for b in idx]
+        mm = mine(m.copy()) if kind == "boolarray" else [bool(b) for b in idx]
         a = attempt(lambda: r[mm])
         dec = np.asarray
         want = "dense"
@@ -90,15 +99,26 @@ def run(case):
         a = attempt(lambda: r[s])
         dec = rl.decode
         want = "rla"
-        joined = abs(st) != 1
+        joined = st != 1
+        if abs(st) >= 2 ** 31:
+            tags.append("step:huge")
     else:
-        starts = np.array(idx[0], dtype=np.int64)
-        stops = np.array(idx[1], dtype=np.int64)
+        vd = case.get("vdtype", "int64")        # the start / stop vectors in any integer type that holds the bounds
+        starts = mine(np.array(idx[0], dtype=vd))
+        stops = mine(np.array(idx[1], dtype=vd))
+        if vd != "int64":
+            tags.append("windows:narrow-dtype")
+            if L > np.iinfo(vd).max:
+                tags.append("windows:len-exceeds-dtype")
         exp = [v[s:e] for s, e in zip(starts.tolist(), stops.tolist())]
         a = attempt(lambda: r[starts:stops])
         want = "windows"
     desc = "rla[%s] (%s) on encoded %s %s" % (short(idx, 120), kind, dt, short(v, 140))
     CTX.tick("c15:compare")
+    for x, b4 in args:
+        CTX.tick("c15:arguments-unchanged")
+        if not np.array_equal(x, b4):
+            return violated("%s modified the caller's index array: %s -> %s" % (desc, short(b4, 100), short(x, 100)), tags + ["argument-mutated"])
     if not a.ok:
         return violated("%s raised %s: %s" % (desc, type(a.exc).__name__, a.exc), tags, got=repr(a))
     g = a.value
@@ -151,23 +171,39 @@ def gen_case(rng, tier, kind=None, dtype=None):
             c["np"] = True
         return c
     if kind in ("list", "array"):
-        return mk_case(dtype, vals, kind, [rng.randint(-L, L - 1) for _ in range(rng.randint(1, 7))])
+        c = mk_case(dtype, vals, kind, [rng.randint(-L, L - 1) for _ in range(rng.randint(1, 7))])
+        if kind == "array":
+            c["readonly"] = rng.random() < 0.3
+            c["idtype"] = rng.choice(["int64", "int64", "int32", "intp", "int16"])
+        return c
     if kind in ("boolarray", "boollist", "rlmask"):
         p = rng.choice([0.0, 0.5, 0.5, 1.0])
         if kind == "rlmask" and rng.random() < 0.6:
             m = np.resize(rl.gen_runs(rng, "bool", "small", L)[0], L).astype(bool).tolist()
         else:
             m = [rng.random() < p for _ in range(L)]
-        return mk_case(dtype, vals, kind, m)
+        return mk_case(dtype, vals, kind, m, readonly=(kind == "boolarray" and rng.random() < 0.3))
     if kind == "cmpmask":
         if np.dtype(dtype).kind == "b":
             return mk_case(dtype, vals, kind, False, op="ne")
         return mk_case(dtype, vals, kind, rng.choice(vals + [0]), op=rng.choice(["gt", "ne"]))
     if kind == "slice":
-        return mk_case(dtype, vals, kind, gen.gen_slice(rng, L))
+        s = gen.gen_slice(rng, L)
+        if rng.random() < 0.08:      # steps / bounds far beyond any array length (python clamps them)
+            big = rng.choice([2 ** 31, -2 ** 31, 2 ** 31 - 2, -(2 ** 31 - 2), 2 ** 40, -2 ** 40, 2 ** 62, -2 ** 62, 2 ** 31 - L])
+            s = slice(s.start, s.stop, big) if rng.random() < 0.7 else slice(rng.choice([s.start, 2 ** 40, -2 ** 40]), rng.choice([s.stop, 2 ** 40, -2 ** 40]), s.step)
+        return mk_case(dtype, vals, kind, s)
+    if rng.random() < 0.25:
+        # a long array, windows near its start: the bounds fit a narrow integer type although the array length does not
+        reps = rng.choice([130, 260, 300])
+        vals = (vals * (reps // L + 1))[:reps]
+        L = len(vals)
     k = rng.randint(1, 5)
-    st = [rng.randint(0, L - 1) for _ in range(k)]
-    return mk_case(dtype, vals, "windows", [st, [rng.randint(s + 1, L) for s in st]])
+    hi = L if L < 100 else rng.choice([100, 120, L])
+    st = [rng.randint(0, hi - 1) for _ in range(k)]
+    en = [rng.randint(s_ + 1, hi) for s_ in st]
+    fits = [d for d in gen.NP_INTS if max(en) <= np.iinfo(d).max]
+    return mk_case(dtype, vals, "windows", [st, en], vdtype=rng.choice(fits + ["int64"]), readonly=rng.random() < 0.2)
 
 
 def directed():
